@@ -292,15 +292,17 @@ fn run_dispatch_with(r: &mut Recorded, world: &World, opts: &ExecOpts, forced: O
     };
     ctx.ev(json!({"ev":"begin","d":r.top,"mode":opts.mode.name(),"th":ctx.thread()}));
     let d = r.dispatcher.as_mut().unwrap();
-    let res = catch_unwind(AssertUnwindSafe(|| match opts.mode {
-        Mode::Disp => d.dispatch(world),
-        #[cfg(feature = "parallel")]
-        Mode::Par => d.dispatch_par(world),
-        #[cfg(not(feature = "parallel"))]
-        Mode::Par => d.dispatch_seq(world),
-        Mode::Seq => d.dispatch_seq(world),
-        Mode::TlOnly => d.dispatch_thread_local(world),
-    }));
+    let res = crate::unwind::ctx(|| {
+        catch_unwind(AssertUnwindSafe(|| match opts.mode {
+            Mode::Disp => d.dispatch(world),
+            #[cfg(feature = "parallel")]
+            Mode::Par => d.dispatch_par(world),
+            #[cfg(not(feature = "parallel"))]
+            Mode::Par => d.dispatch_seq(world),
+            Mode::Seq => d.dispatch_seq(world),
+            Mode::TlOnly => d.dispatch_thread_local(world),
+        }))
+    });
     {
         let mut g = ctx.gate.lock().unwrap();
         g.done = true;
@@ -348,7 +350,7 @@ pub fn lifecycle(r: &mut Recorded, pre: &[crate::prog::Res], repeat: usize, disp
     for round in 0..repeat.max(1) {
         evs.push(world_event("presetup", &ctx, &world));
         ctx.ev(json!({"ev":"setupcall","d":r.top,"phase":"begin"}));
-        let res = catch_unwind(AssertUnwindSafe(|| r.dispatcher.as_mut().unwrap().setup(&mut world)));
+        let res = crate::unwind::ctx(|| catch_unwind(AssertUnwindSafe(|| r.dispatcher.as_mut().unwrap().setup(&mut world))));
         evs.append(&mut ctx.take_log());
         let (rid, val) = world_values(&ctx, &world);
         evs.push(json!({"ev":"setupcall","d":r.top,"phase":"end","out": if res.is_ok() {"ok"} else {"panic"},"rid":rid,"val":val}));
@@ -363,7 +365,7 @@ pub fn lifecycle(r: &mut Recorded, pre: &[crate::prog::Res], repeat: usize, disp
     }
     ctx.ev(json!({"ev":"disposecall","d":r.top,"phase":"begin"}));
     let d = r.dispatcher.take().unwrap();
-    let res = catch_unwind(AssertUnwindSafe(move || d.dispose(&mut world)));
+    let res = crate::unwind::ctx(move || catch_unwind(AssertUnwindSafe(move || d.dispose(&mut world))));
     evs.append(&mut ctx.take_log());
     evs.push(json!({"ev":"disposecall","d":r.top,"phase":"end","out": if res.is_ok() {"ok"} else {"panic"}}));
     r.rec.events.append(&mut evs);
@@ -388,7 +390,7 @@ pub mod asyncx {
     pub fn record_async(prog: &Prog, variant: Variant, prog_no: usize, pool: std::sync::Arc<rayon::ThreadPool>) -> ASession {
         let mut rec = Recorder::new(variant, false);
         rec.events.push(json!({"ev":"reset","prog":prog_no,"var":0}));
-        let (b, top) = rec.build(prog);
+        let (b, top) = crate::unwind::ctx(|| rec.build(prog));
         let b = b.with_pool(pool);
         let mut ad = b.build_async(World::empty());
         let dl = ad.verif_layout();
@@ -399,7 +401,7 @@ pub mod asyncx {
 
     fn acall<T>(ctx: &Ctx, op: &str, f: impl FnOnce() -> T) -> Option<T> {
         ctx.ev(json!({"ev":"acall","op":op,"phase":"begin"}));
-        let r = catch_unwind(AssertUnwindSafe(f));
+        let r = crate::unwind::ctx(|| catch_unwind(AssertUnwindSafe(f)));
         r.ok()
     }
 
